@@ -38,6 +38,10 @@ func main() {
 			if err != nil {
 				panic(err)
 			}
+			if strings.HasPrefix(e.Replay, "batch:") {
+				emitBatch(e, cf.variant, 400000, 20*time.Second)
+				return
+			}
 			if strings.HasPrefix(e.Replay, "burst:") {
 				emitBurst(e, cf.variant, 200000, 20*time.Second)
 				return
@@ -118,6 +122,14 @@ func main() {
 					emitBurst(e, v, 200000, 20*time.Second)
 				} else {
 					emitBurst(e, v, 20000, 1500*time.Millisecond)
+				}
+			}
+			// 6. a big hand-off racing with the cancellation of the readers it admits
+			if want(e, vn+"/batch-cancel") {
+				if e.Thorough || e.Search {
+					emitBatch(e, v, 400000, 20*time.Second)
+				} else {
+					emitBatch(e, v, 20000, 2*time.Second)
 				}
 			}
 		}
